@@ -325,6 +325,72 @@ def library_after_timeout(task, col):
                            'count_reference': int(c_ref)}, [], where={'kind': 'library', 'first_call': outcome})
 
 
+def imputer_after_timeout(task, col):
+    """A long imputation (search for the first / nearest valid vector) of a lazy assignment manager interrupted by the
+    time limit -- what get_all_discrete_x under a time limit does to the processor's own managers; the manager outlives
+    the call, and the same request made afterwards without a limit must give what an undisturbed manager gives."""
+    import numpy as np
+    from adsg_core.optimization.assign_enc.time_limiter import run_timeout
+    import adsg_core.optimization.assign_enc.matrix as mx
+    import adsg_core.optimization.assign_enc.encoder_registry as reg
+    from adsg_core.optimization.assign_enc.assignment_manager import LazyAssignmentManager
+    from adsg_core.optimization.assign_enc.lazy.encodings import LazyDirectMatrixEncoder
+    rnd = gen.rng_for('C19imp', task['seed'], task['shard'])
+    imps = [f for f in reg.LAZY_IMPUTERS if 'ConstraintViolation' not in type(f()).__name__]
+    for imp in imps:
+        n_src, n_tgt = 7, 3
+
+        def manager():
+            src = [mx.Node([0, 1], repeated_allowed=False) for _ in range(n_src - 1)] + \
+                  [mx.Node([1], repeated_allowed=False)]
+            tgt = [mx.Node([1], repeated_allowed=False) for _ in range(n_tgt)]
+            return LazyAssignmentManager(mx.MatrixGenSettings(src=src, tgt=tgt), LazyDirectMatrixEncoder(imp()))
+        name = type(imp()).__name__
+        col.evaluations += 1
+        try:
+            m_ref = manager()
+            x_bad = [1] * len(m_ref.design_vars)
+            t0 = time.time()
+            x_ref, _a, mat_ref = m_ref.get_matrix(list(x_bad))
+            t_ref = time.time() - t0
+        except Exception:  # noqa  (decoding itself is C10's matter)
+            col.count('imputer_reference_failed_' + name)
+            continue
+        if t_ref < .25:
+            col.count('imputer_search_too_fast_to_interrupt_' + name)
+            continue
+        limit = min(.4, .2 * t_ref)
+        m2 = manager()
+        col.count('monitor_calls')
+        col.count('monitor_imputer_calls')
+        outcome = 'return'
+        try:
+            run_timeout(limit, m2.get_matrix, list(x_bad))
+        except TimeoutError:
+            outcome = 'timeout'
+        except Exception as e:  # noqa
+            outcome = 'exc:' + type(e).__name__
+        col.count('imputer_outcome_%s_%s' % (name, outcome))
+        spec = {'library': 'LazyAssignmentManager.get_matrix', 'imputer': name, 'n_src': n_src, 'n_tgt': n_tgt}
+        try:
+            x_after, _a2, mat_after = m2.get_matrix(list(x_bad))
+        except Exception as e:  # noqa
+            info = D.exc_info(e)
+            col.violation('later_call_affected', spec, {'exc': info, 'first_call': outcome, 'limit': limit}, [],
+                          where={'kind': 'imputer', 'exc': info['type']})
+            continue
+        col.nontrivial.add('imputer|%s|%s' % (name, outcome))
+        same = [int(v) for v in x_after] == [int(v) for v in x_ref] and np.array(mat_after).shape == np.array(mat_ref).shape \
+            and bool(np.all(np.array(mat_after) == np.array(mat_ref)))
+        if not same:
+            col.violation('later_call_affected', spec,
+                          {'first_call': outcome, 'limit': limit, 'reference_vector': [int(v) for v in x_ref],
+                           'vector_after': [int(v) for v in x_after],
+                           'matrix_shape_after': list(np.array(mat_after).shape),
+                           'matrix_shape_reference': list(np.array(mat_ref).shape)}, [],
+                          where={'kind': 'imputer', 'first_call': outcome})
+
+
 def interrupted_accessors(task, col):
     """The time limit expires INSIDE a memoising accessor of an object that outlives the limited call (the existence
     patterns belong to the user's settings and are handed to every candidate encoder): each statement of the accessor
@@ -409,6 +475,8 @@ def worker(task, col):
         library_after_timeout(task, col)
         if task.get('shard', 0) % 2 == 0:
             common.guard(col, interrupted_accessors, task, col)
+        else:
+            common.guard(col, imputer_after_timeout, task, col)
         return
     rnd = gen.rng_for('C19', task['seed'], task['shard'])
     sw = task.get('switch')
